@@ -28,6 +28,8 @@ mod sbridge;
 #[cfg(feature = "bridge")]
 mod sfam;
 mod c20;
+#[cfg(feature = "std")]
+mod extra;
 
 #[global_allocator]
 static GLOBAL: alloc::Counting = alloc::Counting;
